@@ -13,7 +13,7 @@ LEVEL = "exploration"
 RULE = (
     "wind_dir on a 7.5 degree lattice (48 directions, always executed) plus seeded random directions; speeds 1-10 m/s; L of both signs; "
     "closures MOST/MOSTM/CONSTANT/OAAHOC; square and oblong grids (dx != dy) centred on the tower; reference points |lat|<=60, any "
-    "longitude; tower given by lat/lon.  Statistic: bearing of the centroid of the peak region (f >= 0.25 max inside the largest "
+    "longitude; tower given by lat/lon; every third case also as a 3-step direction sweep through run_bldfm_timeseries.  Statistic: bearing of the centroid of the peak region (f >= 0.25 max inside the largest "
     "tower-centred disc).  Preconditions (skips counted): dx, dy <= z_m, no spectral truncation, conditioning G<=18, peak region >= 12 "
     "cells and not cut by the disc.  non-trivial = direction more than 2.5 deg away from 0/180 (where a mirror d -> -d would be "
     "invisible); distinct = distinct (direction, closure, grid) cases"
@@ -38,6 +38,12 @@ def cases(tier, seed):
         out.append({"seed": seed, "idx": i, "kind": "e2e", "wd": None, "_cost": 8})
         i += 1
     return out
+
+
+def json_copy(o):
+    import json
+
+    return json.loads(json.dumps(o))
 
 
 def angdiff(a, b):
@@ -152,6 +158,19 @@ def e2e(case):
         return {"evals": 0, "nontrivial": False, "skipped": "conditioning guard G > 18", "buckets": {"skip:G": 1}}
     if nx + 2 * px > 512 or ny + 2 * py > 512:
         return {"evals": 0, "nontrivial": False, "skipped": "default modes would truncate"}
+    # the same tower and forcing as a direction sweep through the timeseries driver: scalar speed / ustar / stability, a list of
+    # wind directions (step 0 is the direction under test)
+    sweep = None
+    if case["idx"] % 3 == 0:
+        dirs = [wd, (wd + 100.0) % 360.0, (wd + 215.0) % 360.0]
+        raw2 = json_copy(raw)
+        raw2["met"]["wind_dir"] = dirs
+        cfg2 = parse_config_dict(raw2)
+        with warnings.catch_warnings():
+            warnings.simplefilter("ignore")
+            with np.errstate(all="ignore"):
+                series = bldfm.run_bldfm_timeseries(cfg2, cfg2.towers[0])
+        sweep = (dirs, series)
     with warnings.catch_warnings():
         warnings.simplefilter("ignore")
         with np.errstate(all="ignore"):
@@ -179,9 +198,22 @@ def e2e(case):
     viol = []
     if err > 5.0:
         viol.append({"what": "footprint_not_upwind_of_tower", "bearing_deg": bearing, "wind_dir": wd, "error_deg": err, "peak_cells": ncell, "G": G, "case": desc})
+    nsweep = 0
+    if sweep is not None:
+        for k, (d_k, r_k) in enumerate(zip(*sweep)):
+            fk = np.asarray(r_k["flx"], dtype=float)
+            fmk = float(fk[disc].max())
+            reg = disc & (fk >= 0.25 * fmk)
+            if int(reg.sum()) < 12:
+                continue
+            bk = math.degrees(math.atan2(float(np.sum(fk[reg] * rx[reg])), float(np.sum(fk[reg] * ry[reg])))) % 360.0
+            nsweep += 1
+            if angdiff(bk, d_k) > 5.0:
+                viol.append({"what": "footprint_not_upwind_of_tower", "driver": "run_bldfm_timeseries", "step": k, "bearing_deg": bk,
+                             "wind_dir": d_k, "error_deg": angdiff(bk, d_k), "directions": sweep[0], "case": desc})
     discr = min(angdiff(wd, 0.0), angdiff(wd, 180.0)) > 2.5
     b = {f"closure:{closure}": 1, "oblong" if oblong else "square": 1, f"forcing:{forcing}": 1, "stable" if L > 0 else "unstable": 1,
          f"halo:{'default' if halo is None else 'explicit'}": 1, f"octant:{int(wd // 45) % 8}": 1, f"prec:{desc['precision']}": 1}
     return {"evals": 1, "nontrivial": bool(discr), "sig": f"{wd:.3f}|{closure}|{nx}x{ny}|{case['idx']}", "buckets": b,
-            "resid": {"bearing_error_deg": err}, "counters": {"single_runs": 1, "peak_region_cells": ncell}, "violations": viol,
+            "resid": {"bearing_error_deg": err}, "counters": {"single_runs": 1, "peak_region_cells": ncell, "timeseries_steps_checked": nsweep}, "violations": viol,
             "sample": dict(desc, bearing=bearing, error_deg=err, peak_cells=ncell, G=G)}
